@@ -5,7 +5,16 @@
    clause 2  ranked         : ranked list is a permutation of the peer set and starts with the owner
    clause 3  removal-minimal: owner over S and over S minus p differ only if the owner over S was p
    clause 4  health         : HealthyOwner answers for the same (set, unhealthy set, key) agree across
-                              nodes; marking p unhealthy changes the answer only if it was p *)
+                              nodes; marking p unhealthy changes the answer only if it was p
+   clause 5  one pool       : a subscriber is held by at most one node's LocalPool, unless a peer set or
+                              health view changed (or the nodes' views differed) since it was first served;
+                              a Get never finds a subscriber nobody was asked to allocate
+   clause 6  release        : after a successful Release (same proviso) no pool holds the subscriber
+   clause 7  persistence    : after a successful Allocate and until a Release of the same subscriber is
+                              requested, some pool holds it (a request for another id never frees it)
+   clause 8  identity       : the response to an Allocate names the subscriber that was asked for
+   The monitor is the product of two parts: [acceptA] (clauses 0-4, state s_nodes/s_obs) and
+   [acceptH] (clauses 5-6, state s_act/s_taint/s_exp0/s_exp1; it reads the node views of the A part). *)
 From Coq Require Import NArith List Bool.
 From Verif Require Import Base.Word Model.Rendezvous.
 Import ListNotations.
@@ -13,21 +22,29 @@ Local Open Scope N_scope.
 
 Record obs := { o_tag : N; o_set : list bytes; o_un : list bytes; o_key : bytes; o_ans : bytes }.
 Record snode := { s_self : bytes; s_set : list bytes; s_un : list bytes }.
-Record sstate := { s_nodes : list snode; s_obs : list obs }.
+(* s_act   : subscribers for which a successful Allocate was observed and not yet seen unheld
+   s_taint : subscribers exempt from clause 5/6 (a view changed, or views differed, while active)
+   s_exp0  : subscribers whose last event was a successful Release inside the proviso
+   s_exp1  : subscribers whose last event was a successful Allocate (no Release requested since) *)
+Record sstate := { s_nodes : list snode; s_obs : list obs;
+                   s_act : list bytes; s_taint : list bytes; s_exp0 : list bytes; s_exp1 : list bytes }.
 
 Definition sinit (cfgs : list (bytes * list bytes)) : sstate :=
   {| s_nodes := map (fun c => {| s_self := fst c;
                                  s_set := sort_s (if mem_s (fst c) (snd c) then snd c else snd c ++ [fst c]);
                                  s_un := [] |}) cfgs;
-     s_obs := [] |}.
+     s_obs := []; s_act := []; s_taint := []; s_exp0 := []; s_exp1 := [] |}.
 
 Definition sget (s : sstate) (n : N) : snode :=
   nth (N.to_nat n) (s_nodes s) {| s_self := []; s_set := []; s_un := [] |}.
 Definition supd (s : sstate) (n : N) (f : snode -> snode) : sstate :=
   {| s_nodes := map (fun p => if fst p =? n then f (snd p) else snd p)
                     (combine (map N.of_nat (seq 0 (length (s_nodes s)))) (s_nodes s));
-     s_obs := s_obs s |}.
-Definition srec (s : sstate) (o : obs) : sstate := {| s_nodes := s_nodes s; s_obs := o :: s_obs s |}.
+     s_obs := s_obs s; s_act := s_act s; s_taint := s_taint s; s_exp0 := s_exp0 s; s_exp1 := s_exp1 s |}.
+Definition srec (s : sstate) (o : obs) : sstate :=
+  {| s_nodes := s_nodes s; s_obs := o :: s_obs s; s_act := s_act s; s_taint := s_taint s; s_exp0 := s_exp0 s; s_exp1 := s_exp1 s |}.
+Definition sset_h (s : sstate) (act taint exp0 exp1 : list bytes) : sstate :=
+  {| s_nodes := s_nodes s; s_obs := s_obs s; s_act := act; s_taint := taint; s_exp0 := exp0; s_exp1 := exp1 |}.
 
 (* S' = S minus one occurrence of p *)
 Definition is_minus (S S' : list bytes) (p : bytes) : bool :=
@@ -57,17 +74,20 @@ Definition ok_health (obsl : list obs) (S U : list bytes) (k ans : bytes) : opti
            || bytes_eqb (o_ans o) ans))) obsl) then Some 4
   else None.
 
-Definition accept (s : sstate) (o : op) (r : out) : sstate + N :=
+(* the health view of node nd after "p is (un)healthy" *)
+Definition smark (nd : snode) (p : bytes) (h : bool) : snode :=
+  {| s_self := s_self nd; s_set := s_set nd; s_un := mark (s_un nd) p h |}.
+
+(* ---------- part A: clauses 0-4 ---------- *)
+Definition acceptA (s : sstate) (o : op) (r : out) : sstate + N :=
   match o, r with
   | AddPeer n p, ONone =>
       inl (supd s n (fun nd => if mem_s p (s_set nd) then nd else
                {| s_self := s_self nd; s_set := sort_s (p :: s_set nd); s_un := s_un nd |}))
   | RemovePeer n p, ONone =>
       inl (supd s n (fun nd => {| s_self := s_self nd; s_set := remove_first p (s_set nd); s_un := s_un nd |}))
-  | SetHealth n p h, ONone =>
-      inl (supd s n (fun nd =>
-             let rest := filter (fun q => negb (bytes_eqb q p)) (s_un nd) in
-             {| s_self := s_self nd; s_set := s_set nd; s_un := if h then rest else sort_s (p :: rest) |}))
+  | SetHealth n p h, ONone => inl (supd s n (fun nd => smark nd p h))
+  | CheckPeer n p _, OHealth h _ => inl (supd s n (fun nd => smark nd p h))
   | GetOwner n k, OStr a =>
       let nd := sget s n in
       match ok_owner (s_obs s) (s_set nd) k a with
@@ -92,13 +112,70 @@ Definition accept (s : sstate) (o : op) (r : out) : sstate + N :=
       | Some c => inr c
       | None => inl (srec s {| o_tag := 1; o_set := s_set nd; o_un := s_un nd; o_key := k; o_ans := a |})
       end
-  | Alloc n k, OStr a =>
+  | Alloc n k, OServed a sid =>
       (* end to end: the node that served the request is the healthy owner all nodes agree on *)
       let nd := sget s n in
+      if negb (bytes_eqb sid k) then inr 8 else
       match ok_health (s_obs s) (s_set nd) (s_un nd) k a with
       | Some c => inr c
       | None => inl (srec s {| o_tag := 1; o_set := s_set nd; o_un := s_un nd; o_key := k; o_ans := a |})
       end
   | Alloc n k, OErr => inl s      (* owner not reachable: nothing served *)
+  | Release n k, ONone => inl s
+  | Release n k, OErr => inl s    (* owner not reachable / id not deliverable: nothing released *)
+  | Get n k, OBool b =>
+      (* a subscriber is only found at the node every GetOwner answer names *)
+      let nd := sget s n in
+      if negb b || forallb (fun o => negb ((o_tag o =? 0) && list_bytes_eqb (o_set o) (s_set nd) && bytes_eqb (o_key o) k)
+                                     || bytes_eqb (o_ans o) (s_self nd)) (s_obs s)
+      then inl s else inr 0
+  | Holds k, OHold _ => inl s
   | _, _ => inr 9
+  end.
+
+(* ---------- part H: clauses 5-6 ---------- *)
+Fixpoint nodup_b (l : list bytes) : bool :=
+  match l with [] => true | x :: tl => negb (mem_s x tl) && nodup_b tl end.
+(* all nodes are distinct processes and share one view (peer set, health vector) *)
+Definition consistent (s : sstate) : bool :=
+  nodup_b (map s_self (s_nodes s)) &&
+  match s_nodes s with
+  | [] => true
+  | n0 :: tl => forallb (fun nd => list_bytes_eqb (s_set nd) (s_set n0) && list_bytes_eqb (s_un nd) (s_un n0)) tl
+  end.
+Definition add_s (k : bytes) (l : list bytes) : list bytes := if mem_s k l then l else k :: l.
+Definition is_nil {A} (l : list A) : bool := match l with [] => true | _ => false end.
+
+(* [s] is the state BEFORE the op (its node views are the ones the request was routed with) *)
+Definition acceptH (s : sstate) (o : op) (r : out) : sstate + N :=
+  match o, r with
+  | AddPeer _ _, _ | RemovePeer _ _, _ | SetHealth _ _ _, _ | CheckPeer _ _ _, _ =>
+      inl (sset_h s (s_act s) (s_act s ++ s_taint s) (s_exp0 s) (s_exp1 s))
+  | Alloc n k, OServed _ _ =>
+      inl (sset_h s (add_s k (s_act s)) (if consistent s then s_taint s else add_s k (s_taint s))
+                  (without k (s_exp0 s)) (add_s k (s_exp1 s)))
+  | Release n k, ONone =>
+      inl (sset_h s (s_act s) (s_taint s) (if mem_s k (s_taint s) then s_exp0 s else add_s k (s_exp0 s))
+                  (without k (s_exp1 s)))
+  | Release n k, _ => inl (sset_h s (s_act s) (s_taint s) (s_exp0 s) (without k (s_exp1 s)))
+  | Get n k, OBool b =>
+      if b && (negb (mem_s k (s_act s)) || mem_s k (s_exp0 s)) then inr 5 else inl s
+  | Holds k, OHold hs =>
+      if mem_s k (s_exp0 s) && negb (is_nil hs) then inr 6
+      else if negb (mem_s k (s_taint s)) && (2 <=? N.of_nat (length hs)) then inr 5
+      else if mem_s k (s_exp1 s) && is_nil hs then inr 7
+      else inl (if is_nil hs then sset_h s (without k (s_act s)) (without k (s_taint s)) (s_exp0 s) (s_exp1 s) else s)
+  | _, _ => inl s
+  end.
+
+(* the monitor: part A decides first; part H reads the views before the op *)
+Definition accept (s : sstate) (o : op) (r : out) : sstate + N :=
+  match acceptA s o r with
+  | inr c => inr c
+  | inl sa =>
+      match acceptH s o r with
+      | inr c => inr c
+      | inl sh => inl {| s_nodes := s_nodes sa; s_obs := s_obs sa;
+                         s_act := s_act sh; s_taint := s_taint sh; s_exp0 := s_exp0 sh; s_exp1 := s_exp1 sh |}
+      end
   end.
